@@ -138,3 +138,12 @@ Fixpoint drop_while {A} (p : A -> bool) (l : list A) : list A :=
 (* strings.TrimRight(s, cutset-predicate) on runes *)
 Definition trim_right {A} (p : A -> bool) (l : list A) : list A := rev (drop_while p (rev l)).
 Definition trim_left {A} (p : A -> bool) (l : list A) : list A := drop_while p l.
+
+(* strconv.Itoa / %d for a natural number, as ASCII bytes *)
+Fixpoint N_to_dec_fuel (fuel : nat) (n : N) (acc : list N) : list N :=
+  match fuel with
+  | O => acc
+  | S f => let acc' := (48 + N.modulo n 10)%N :: acc in
+           if N.ltb n 10 then acc' else N_to_dec_fuel f (N.div n 10) acc'
+  end.
+Definition N_to_dec (n : N) : list N := N_to_dec_fuel (S (N.to_nat (N.log2 n))) n [].
